@@ -3,7 +3,7 @@
     limits of the encoders that truncate, and for every Encode / Decode
     function of internal/protocol/frame.go the sequence of bufferWriter /
     bufferReader primitives in source order with the struct field each one
-    transfers.  Generated/C05.v (regenerated from the working tree on every
+    transfers, and the bounds-check expressions inside the decoders.  Generated/C05.v (regenerated from the working tree on every
     run) must equal these tables (Properties/C05.v, C05_source_facts).  No
     proofs in this file. *)
 From Coq Require Import NArith List String.
@@ -74,3 +74,48 @@ Definition model_shapes : list (string * list string) := [
   ("UDPOpenErr.Encode", ["u64 RequestID"; "u16 ErrorCode"; "str"]);
   ("WakeCommand.Encode", ["bytes OriginAgent"; "u64 CommandID"; "u64 Timestamp"; "bytes Signature"; "ids SeenBy"]);
   ("WakeCommand.SignableBytes", ["bytes OriginAgent"; "u64 CommandID"; "u64 Timestamp"])].
+
+(** inner bounds checks, buffer index/slice expressions and offset computations of every decoder,
+    reader primitive and prefix helper, in source order *)
+Definition model_bounds : list (string * list string) := [
+  ("Decode", ["if len(buf) < HeaderSize+int(length)"; "slice buf[HeaderSize : HeaderSize+length]"]);
+  ("DecodeAgentPrefix", ["if len(prefix) < identity.IDSize"; "slice prefix[:identity.IDSize]"]);
+  ("DecodeControlRequest", ["if len(buf) < 30"]);
+  ("DecodeControlResponse", ["if len(buf) < 12"]);
+  ("DecodeDomainPrefix", ["if len(prefix) < 1"; "idx prefix[0]"; "if len(prefix) < 1+domainLen"; "slice prefix[1 : 1+domainLen]"]);
+  ("DecodeEncryptedData", ["if len(buf) < 3"]);
+  ("DecodeForwardKey", ["if len(prefix) < 1"; "idx prefix[0]"; "if len(prefix) < 1+keyLen"; "slice prefix[1 : 1+keyLen]"]);
+  ("DecodeForwardKeyAndTarget", ["if len(prefix) < 1"; "idx prefix[0]"; "if len(prefix) < 1+keyLen"; "slice prefix[1 : 1+keyLen]"; "set targetOffset := 1 + keyLen"; "if len(prefix) < targetOffset+1"; "idx prefix[targetOffset]"; "if len(prefix) < targetOffset+1+targetLen"; "slice prefix[targetOffset+1 : targetOffset+1+targetLen]"]);
+  ("DecodeHeader", ["if len(buf) < HeaderSize"; "idx buf[0]"; "idx buf[1]"; "slice buf[2:6]"; "slice buf[6:14]"]);
+  ("DecodeICMPClose", ["if len(buf) < 1"; "idx buf[0]"]);
+  ("DecodeICMPEcho", ["if len(buf) < 8"]);
+  ("DecodeICMPOpen", ["if len(buf) < 11+EphemeralKeySize"]);
+  ("DecodeICMPOpenAck", ["if len(buf) < 8+EphemeralKeySize"]);
+  ("DecodeICMPOpenErr", ["if len(buf) < 11"]);
+  ("DecodeKeepalive", ["if len(buf) < 8"]);
+  ("DecodeNodeInfo", ["if len(buf) < 5+EphemeralKeySize"; "if r.remaining() < 16"; "if r.remaining() < 9"; "if r.remaining() > 0"; "if r.remaining() > 0"; "for i < listenerCount && r.remaining() > 0"; "if r.remaining() < 1"; "if r.remaining() > 0"; "for i < shellCount && r.remaining() > 0"; "if r.remaining() > 0"; "if r.remaining() > 0"; "if r.remaining() > 0"]);
+  ("DecodeNodeInfoAdvertise", ["if len(buf) < 28"; "slice buf[r.offset:]"; "set r.offset += consumed"]);
+  ("DecodePath", ["if len(buf) < 1"]);
+  ("DecodePeerHello", ["if len(buf) < 28"]);
+  ("DecodeQueuedState", ["if len(buf) < 8"; "set sleepData := r.buf[r.offset:]"; "slice r.buf[r.offset:]"; "set r.offset += 16 + 8 + 8 + SignatureSize + 1 + len(sleepCmd.SeenBy)*16"; "set wakeData := r.buf[r.offset:]"; "slice r.buf[r.offset:]"]);
+  ("DecodeRouteAdvertise", ["if len(buf) < 28"; "if rd.offset >= len(buf)"; "idx buf[rd.offset]"; "if rd.offset >= len(buf)"; "idx buf[rd.offset]"; "set targetLenOffset := rd.offset + 1 + keyLen"; "if targetLenOffset >= len(buf)"; "idx buf[targetLenOffset]"; "slice buf[rd.offset:]"; "set rd.offset += consumed"]);
+  ("DecodeRouteWithdraw", ["if len(buf) < 26"]);
+  ("DecodeSleepCommand", ["if len(buf) < 16+8+8+SignatureSize+1"]);
+  ("DecodeStreamOpen", ["if len(buf) < 13+EphemeralKeySize"; "if r.offset >= len(buf)"; "idx buf[r.offset]"]);
+  ("DecodeStreamOpenAck", ["if len(buf) < 11+EphemeralKeySize"]);
+  ("DecodeStreamOpenErr", ["if len(buf) < 11"]);
+  ("DecodeStreamReset", ["if len(buf) < 2"]);
+  ("DecodeUDPClose", ["if len(buf) < 1"; "idx buf[0]"]);
+  ("DecodeUDPDatagram", ["if len(buf) < 6"; "if r.offset >= len(buf)"; "idx buf[r.offset]"]);
+  ("DecodeUDPOpen", ["if len(buf) < 13+EphemeralKeySize"; "if r.offset >= len(buf)"; "idx buf[r.offset]"]);
+  ("DecodeUDPOpenAck", ["if len(buf) < 11+EphemeralKeySize"]);
+  ("DecodeUDPOpenErr", ["if len(buf) < 11"]);
+  ("DecodeWakeCommand", ["if len(buf) < 16+8+8+SignatureSize+1"]);
+  ("bufferReader.readAgentID", ["if r.err != nil || r.offset+16 > len(r.buf)"; "slice r.buf[r.offset : r.offset+16]"; "set r.offset += 16"]);
+  ("bufferReader.readBytes", ["if r.err != nil || r.offset+n > len(r.buf)"; "slice r.buf[r.offset : r.offset+n]"; "set r.offset += n"]);
+  ("bufferReader.readEphemeralKey", ["if r.err != nil || r.offset+EphemeralKeySize > len(r.buf)"; "slice r.buf[r.offset : r.offset+EphemeralKeySize]"; "set r.offset += EphemeralKeySize"]);
+  ("bufferReader.readString", ["if r.offset+length > len(r.buf)"; "slice r.buf[r.offset : r.offset+length]"; "set r.offset += length"]);
+  ("bufferReader.readUint16", ["if r.err != nil || r.offset+2 > len(r.buf)"; "slice r.buf[r.offset:]"; "set r.offset += 2"]);
+  ("bufferReader.readUint32", ["if r.err != nil || r.offset+4 > len(r.buf)"; "slice r.buf[r.offset:]"; "set r.offset += 4"]);
+  ("bufferReader.readUint64", ["if r.err != nil || r.offset+8 > len(r.buf)"; "slice r.buf[r.offset:]"; "set r.offset += 8"]);
+  ("bufferReader.readUint8", ["if r.err != nil || r.offset >= len(r.buf)"; "set v := r.buf[r.offset]"; "idx r.buf[r.offset]"; "set r.offset++"])].
